@@ -9,7 +9,7 @@
 (* One action per public entry point; the sink entry points are the five   *)
 (* AmlSink methods, which the implementation funnels through byte().       *)
 (***************************************************************************)
-EXTENDS Bytes
+EXTENDS CkAlgebra
 
 CONSTANT RefMod          \* multiple of 256
 VARIABLES acc, ref
@@ -20,15 +20,10 @@ Norm(x) == ((x % RefMod) + RefMod) % RefMod
 CkInit == acc = 0 /\ ref = 0
 
 \* single-byte operations
-AddNext(a, b) == (a + b) % 256
-SubNext(a, b) == (a + 256 - b) % 256
 CkAdd(b) == acc' = AddNext(acc, b) /\ ref' = Norm(ref + b)
 CkSub(b) == acc' = SubNext(acc, b) /\ ref' = Norm(ref - b)
 
 \* slice operations: one wrapping step per byte, in order
-AppendNext(a, s) == FoldLeft(AddNext, a, s)
-DeleteNext(a, s) == FoldLeft(SubNext, a, s)
-PlainSum(s) == FoldLeft(LAMBDA x, y : x + y, 0, s)    \* |s| * 255 < 2^31
 CkAppend(s) == acc' = AppendNext(acc, s) /\ ref' = Norm(ref + PlainSum(s))
 CkDelete(s) == acc' = DeleteNext(acc, s) /\ ref' = Norm(ref - PlainSum(s))
 
@@ -36,7 +31,6 @@ CkDelete(s) == acc' = DeleteNext(acc, s) /\ ref' = Norm(ref - PlainSum(s))
 CkSink(s) == CkAppend(s)
 
 \* the reported checksum
-Value(a) == (256 - a) % 256
 
 ---------------------------------------------------------------------------
 \* properties (C17)
